@@ -450,11 +450,20 @@ def conformance(ctx):
                     PROGS[prog]((s.map(PRE[prog]) if prog in PRE else s).scatter()).gather().sink(lambda v: L.append(_fz(v)))
                 finally:
                     DASK = False
-                for x in (1, 2, 3):
-                    await s.emit(x)
-                await asyncio.sleep(0.3)
                 llog, _ = local_run(prog, [("p", x) for x in (1, 2, 3)], False)
                 want = [e[1] for e in llog if e[0] == "in"]
+                for x in (1, 2, 3):
+                    try:
+                        await asyncio.wait_for(s.emit(x), 60)
+                    except ZeroDivisionError:
+                        pass             # the programs whose task fails for one element
+                # no wall-clock assumption: wait until everything expected has arrived (or a generous limit), then a
+                # short grace period in which anything surplus would show up
+                for _ in range(600):
+                    if len(L) >= len(want):
+                        break
+                    await asyncio.sleep(0.05)
+                await asyncio.sleep(0.2)
                 out.append((prog, L, want))
     asyncio.run(run())
     return out
